@@ -194,6 +194,13 @@ impl TriviaMask {
     }
 }
 
+/// Unicode (and ASCII control) characters with line-break or blank semantics
+/// elsewhere: NEL, LS, PS, NBSP, BOM, ZWSP, OGHAM SPACE, IDEOGRAPHIC SPACE, VT,
+/// the information separators, NUL, DEL.
+pub const LINE_LIKE: &[&str] = &[
+    "\u{85}", "\u{2028}", "\u{2029}", "\u{a0}", "\u{feff}", "\u{200b}", "\u{1680}", "\u{3000}", "\u{b}", "\u{1c}", "\u{1d}", "\u{1e}", "\u{1f}", "\u{0}", "\u{7f}",
+];
+
 fn one_trivia(rng: &mut Rng, m: &TriviaMask, out: &mut Vec<u8>) {
     loop {
         match rng.below(6) {
@@ -238,6 +245,13 @@ fn one_trivia(rng: &mut Rng, m: &TriviaMask, out: &mut Vec<u8>) {
                         }
                         7 => {
                             out.extend_from_slice("λ".as_bytes());
+                            continue;
+                        }
+                        9 => {
+                            // characters that other tools treat as line ends or blanks:
+                            // a comment ends at LF only, whatever else is inside it
+                            out.extend_from_slice(rng.pick(LINE_LIKE).as_bytes());
+                            out.push(b'x');
                             continue;
                         }
                         8 => b'#',
@@ -1042,8 +1056,15 @@ fn utf8_body(rng: &mut Rng, out: &mut Vec<u8>, escapes: Option<&[&[u8]]>, long: 
             }
             7 if escapes.is_some() => {
                 // a backslash directly in front of a raw (possibly ill-formed) sequence
-                // or a single arbitrary byte: the generic "escaped character" arm
+                // or a single arbitrary byte: the generic "escaped character" arm;
+                // sometimes a control byte (a line end, say) sits in between
                 out.push(b'\\');
+                if rng.chance(1, 3) {
+                    out.push(*rng.pick(b"\r\n\t\x0c\x00\x0b "));
+                    if rng.chance(1, 3) {
+                        out.push(b'\n');
+                    }
+                }
                 if rng.coin() {
                     let p = *rng.pick(UTF8_PIECES);
                     if !p.iter().any(|c| forbid.contains(c)) {
